@@ -319,7 +319,9 @@ PROPS = {
                 "real-time window, no new-old inversion; every Get() is the key's version in a state of its window. Non-trivial: every round.",
         "trusted_base": [
             "actor model KcacheModel/Actor.lean written by hand from cache.go (request channels, one goroutine, buffered result channel)",
-            "the history checker Driver/LinEng.lean (atomic-register conditions for single-writer histories) is driver code, not proved",
+            "the history judgement is KC.Lin.accepts (KcacheModel/Lin.lean), proved sound and complete w.r.t. linearizability of single-writer histories "
+            "(C15.lin_accepts_sound, C15.lin_rejects_sound); unproved driver code around it: mapping a returned list to the index of a complete state "
+            "(classifyRead) and the per-key window test for Get()",
             "the Go race detector and scheduler: interleavings are sampled; absence of data races is a runtime fact supported by the detector only",
         ],
         "assumptions": ["a single writer (the controller / filtered-subscription goroutine is the only writer of its cache)"],
